@@ -14,6 +14,7 @@ import Fir.Model.SimdU8x3
 import Fir.Model.SimdVertU16
 import Fir.Model.SimdU8x1
 import Fir.Model.SimdU8x2
+import Fir.Model.SimdU16x1
 namespace Fir
 
 /-- C02 tolerance between two back-ends: integers identical, f32 a few ulps of a re-associated f64 sum -/
@@ -190,6 +191,20 @@ def handleKernel (fs : List (String × String)) : String :=
                   return some s!"lane model of the SSE4.1 U8x2 horizontal kernels: pixel ({x},{y}) channel {ch}: model={px.getD ch 0} got={got[(y * dw + x) * 2 + ch]!}"
           return none
         else none
+      -- single-channel 16-bit images on SSE4.1, horizontal pass (four-row blocks and leftover rows do the same per row)
+      let lane16 : Option String :=
+        if p.kind == .u16 ∧ p.n == 1 ∧ ext == "sse4" ∧ pass == "h" ∧ got.size == dw * dh then Id.run do
+          let q := normalize32 c
+          for y in [0:dh] do
+            let row : List Int := (List.range sw).map fun i => src[(offset + y) * sw + i]!
+            for x in [0:dw] do
+              let (start, ks) := q.chunks.getD x (0, #[])
+              let px := SimdU16x1.pixel q.precision row start ks.toList
+              if px ≠ got[y * dw + x]! then
+                return some s!"lane model of the SSE4.1 U16 horizontal kernels: pixel ({x},{y}): model={px} got={got[y * dw + x]!}"
+          return none
+        else none
+      let lane2 := match lane2 with | some e => some e | none => lane16
       let lane1 := match lane1 with | some e => some e | none => lane2
       let lane := match lane, laneV, lane3, laneV16, lane1 with
         | some a, _, _, _, _ => some a
